@@ -37,6 +37,10 @@ func moduleFile(k int, name string, deps [][2]interface{}, depNames []string, pu
 		def("Name", sl(fmt.Sprintf("mod%d", k))),
 		fn("helper", nil, []Type{TInt}, ret(bin("+", vr("secret"), il(1)))),
 		fn("Get", nil, []Type{TInt}, ret(bin("+", vr("Count"), call("helper")))),
+		def("Hits", il(0)),
+		def("trail", SliceLit{TString, []Expr{sl("t0")}}),
+		// every statement form that writes a global of the file, from inside a function of the file
+		fn("Touch", nil, []Type{TInt}, IncDec{"Hits", true}, IncDec{"Hits", true}, IncDec{"Hits", false}, OpAssign{"Hits", "*", il(3)}, Assign{[]string{"Hits", "secret"}, []Expr{bin("+", vr("Hits"), il(1)), bin("+", vr("secret"), il(0))}}, SliceSet{"trail", Len{vr("trail")}, vr("Name")}, ret(bin("+", bin("*", vr("Hits"), il(10)), Len{vr("trail")}))),
 		fn("Bump", []Param{{"n", TInt}}, []Type{TInt}, set("Count", bin("+", vr("Count"), vr("n"))), OpAssign{"secret", "+", il(1)}, ret(vr("Count"))),
 		fn("Label", []Param{{"s", TString}}, []Type{TString}, ret(bin("+", bin("+", vr("Name"), sl(":")), vr("s")))),
 		fn("unused", nil, nil, pr(sl("never"))),
@@ -58,7 +62,9 @@ func moduleFile(k int, name string, deps [][2]interface{}, depNames []string, pu
 		// change the state of every imported file (its public and private globals) before any other importer is processed
 		for _, d := range deps {
 			st = append(st, pr(sl("dep"), Call{Alias: d[0].(string), Fn: "Bump", Args: []Expr{il(K)}}))
+			st = append(st, pr(sl("dep-touch"), Call{Alias: d[0].(string), Fn: "Touch"}))
 		}
+		st = append(st, pr(sl("touch"), call("Touch")), pr(sl("hits"), vr("Hits"), Len{vr("trail")}))
 		st = append(st, ExprStmt{call("tail")}, pr(sl("init-done"), il(K), vr("Count")))
 	}
 	if salt >= 0 {
@@ -218,7 +224,7 @@ func linkMonitor(script string) []string {
 }
 
 func checkC09(c *Check) {
-	c.Rule = "multi-file programs over 13 import-graph shapes (single, chains of 3-5, fan-out 2-3 with top-level calls in every import, diamonds, one file under two aliases, std + local, local importing std) whose files share names (Count, secret, helper, Get) and exercise public/private functions, globals read and written by their own file's functions, cross-file calls and top-level code; each imported file is additionally rendered in variants (a trailing comment) until every first hex digit 0-f of its content-hash prefix has been executed; negative cases (private call, missing/unknown/duplicate alias, unknown function, missing file); oracle = reference interpreter with module semantics + a text monitor on the emitted Bash (every invoked function defined earlier, nothing defined twice) + real bash run. Non-trivial = at least one cross-file call executed; distinct = SHA-256 of all files"
+	c.Rule = "multi-file programs over 13 import-graph shapes (single, chains of 3-5, fan-out 2-3 with top-level calls in every import, diamonds, one file under two aliases, std + local, local importing std) whose files share names (Count, secret, helper, Get) and exercise public/private functions, globals read and written by their own file's functions, cross-file calls and top-level code; each imported file is additionally rendered in variants (a trailing comment) until every first hex digit 0-f of its content-hash prefix has been executed, plus mined contents whose digest starts with 00, has only decimal digits, only letters, or a zero in second place; every statement form that writes a global (=, op=, ++/--, multi-assignment, element write) runs inside the imported files; negative cases (private call, missing/unknown/duplicate alias, unknown function, missing file); oracle = reference interpreter with module semantics + a text monitor on the emitted Bash (every invoked function defined earlier, nothing defined twice) + real bash run. Non-trivial = at least one cross-file call executed; distinct = SHA-256 of all files"
 	c.Assumptions = []string{"files reached along several import paths contain only definitions with pure initialisers (whether their top-level effects run once is not stated)", "std strings functions modelled by Go's strings in the reference"}
 	runProbes(c, bashProbeJudge)
 	nontrivial := func(r Result) bool { return len(r.Stdout) > 0 }
@@ -229,6 +235,7 @@ func checkC09(c *Check) {
 	cases := []mcase{}
 	r := rand.New(rand.NewSource(c.Seed*9000011 + 3))
 	digitsSeen := map[byte]bool{}
+	hashClassesSeen := map[string]bool{}
 	for _, sh := range c09Shapes() {
 		cases = append(cases, mcase{"shape/" + sh.name + "/base", sh.build(nil)})
 		// hash sweep: for each imported file, variants until all 16 first digits occurred
@@ -250,8 +257,32 @@ func checkC09(c *Check) {
 				cases = append(cases, mcase{fmt.Sprintf("shape/%s/hash-sweep/file%d/first-digit=%c", sh.name, k, d), p})
 			}
 		}
+		// rarer shapes of the hex digest (the import prefix is cut from it): two leading zeros, only
+		// decimal digits, only letters, a zero right after the first digit
+		if sh.n > 1 {
+			classes := map[string]func(hx string) bool{
+				"two-leading-zeros": func(hx string) bool { return strings.HasPrefix(hx, "00") },
+				"all-decimal-7":     func(hx string) bool { return strings.Trim(hx[:7], "0123456789") == "" },
+				"all-letters-4":     func(hx string) bool { return strings.Trim(hx[:4], "abcdef") == "" },
+				"zero-second":       func(hx string) bool { return hx[1] == '0' && hx[0] != '0' },
+			}
+			found := map[string]bool{}
+			for salt := 1000; len(found) < len(classes) && salt < 1000+c.Pick(2500, 6000); salt++ {
+				p := sh.build(map[int]int{1: salt})
+				h := sha256.Sum256([]byte(RenderFile(p.Files[1])))
+				hx := fmt.Sprintf("%x", h[:8])
+				for _, cn := range sortedKeys(map[string]string{"two-leading-zeros": "", "all-decimal-7": "", "all-letters-4": "", "zero-second": ""}) {
+					if !found[cn] && classes[cn](hx) {
+						found[cn] = true
+						hashClassesSeen[cn] = true
+						cases = append(cases, mcase{fmt.Sprintf("shape/%s/hash-sweep/file1/%s", sh.name, cn), p})
+					}
+				}
+			}
+		}
 	}
 	c.Extra["hash_first_digits_covered"] = len(digitsSeen)
+	c.Extra["hash_classes_covered"] = sortedKeys(map[string]string(func() map[string]string { m := map[string]string{}; for k := range hashClassesSeen { m[k] = "" }; return m }()))
 	viol := 0
 	parallelDo(len(cases), 16, func(i int) {
 		mc := cases[i]
